@@ -85,6 +85,12 @@ def scenario(draw, tier="quick", fault=False, cooldown=False):
         sc["strategies"][1]["listener_kwargs"] = draw(st.sampled_from(LKS + [{"inplay": True, "max_inplay_seconds": 20}]))
         if draw(st.booleans()):
             sc["strategies"].reverse()
+    if not fault and draw(st.integers(0, 3)) == 0:
+        # (errors are contained, raise_errors False) OBS's code fails inside `simulated_datetime.real_time()`: every
+        # later callback must still see the publish time of its update
+        next(s_ for s_ in sc["strategies"] if s_["name"] == "OBS")["fault"] = {
+            "cb": draw(st.sampled_from(["check_market_book", "process_market_book", "process_orders"])), "n": draw(st.integers(0, 4)),
+            "exc": "plain", "in_real_time": True}
     if fault:
         sc["config"] = {"raise_errors": True}
         next(s_ for s_ in sc["strategies"] if s_["name"] == "OBS")["fault"] = {"cb": draw(st.sampled_from(["check_market_book", "process_market_book", "process_orders", "process_new_market"])),
